@@ -11,8 +11,15 @@ from .interp import Interp, Policy, Sym, Closure, show, App, Const
 
 
 class _P(Policy):
+    """Small crate-local helpers are inlined (a guard may live in a helper); loops are widened."""
     max_paths = 3000
     max_visits = 1
+    max_depth = 4
+    loop_mode = "widen"
+
+    def inline(self, fn, args, interp, path):
+        b = interp.callee_body(fn)
+        return b is not None and len(b["blocks"]) <= 40 and not any(f.body["path"] == b["path"] for f in path.frames)
 
 
 def paths_of(fb, body):
@@ -37,7 +44,7 @@ def span_eq(a, b):
 def paths_through(fb, body, site):
     """(paths containing the site, event per path, all_recognised)"""
     ps = paths_of(fb, body)
-    recognised = all(p.status in ("return", "diverge", "unreachable") for p in ps)
+    recognised = all(p.status in ("return", "diverge", "unreachable", "loop-pruned") for p in ps)
     out = []
     for p in ps:
         for e in p.events:
@@ -103,77 +110,144 @@ def g_bits_sum(fb, body, site):
     return _every_path(fb, body, site, pred)
 
 
+def _unconv(v):
+    """strip numeric conversions and Option payload projections: the value a converted number came from"""
+    from . import rel
+    v = rel.canon(v)
+    while isinstance(v, App) and v.args:
+        if v.fn == ".0" and isinstance(v.args[0], App) and v.args[0].fn in ("as:Some", "as:Ok"):
+            v = v.args[0].args[0]
+        elif v.fn in ("num::NumCast::from", "std::convert::From::from", "std::convert::Into::into", "std::convert::TryFrom::try_from",
+                      "std::convert::TryInto::try_into", "num::FromPrimitive::from_usize") or v.fn.startswith("cast:IntToInt"):
+            v = v.args[0]
+        else:
+            break
+    return v
+
+
+def _is_len_of(v, r):
+    from . import rel
+    v = _unconv(v)
+    return isinstance(v, App) and re.search(r"::len$", v.fn) is not None and len(v.args) == 1 and rel.canon(v.args[0]).key() == rel.canon(r).key()
+
+
+def _is_zero(v):
+    from . import rel
+    v = _unconv(v)
+    if rel.const_int(v) == 0:
+        return True
+    return isinstance(v, App) and v.fn in ("num::Zero::zero",) and not v.args
+
+
+def _is_bit_width(v):
+    from . import rel
+    v = rel.canon(v)
+    while isinstance(v, App) and v.fn.startswith("cast:") and v.args:
+        v = v.args[0]
+    if not isinstance(v, App):
+        return False
+    if v.fn == "binop:Add" and len(v.args) == 2:
+        x, y = v.args
+        names = {x.fn if isinstance(x, App) else "", y.fn if isinstance(y, App) else ""}
+        if names == {"num::PrimInt::count_ones", "num::PrimInt::count_zeros"} and x.args[0].key() == y.args[0].key():
+            return True
+    if v.fn in ("num::PrimInt::count_zeros", "num::PrimInt::leading_zeros", "num::PrimInt::trailing_zeros") and v.args and _is_zero(v.args[0]):
+        return True
+    if v.fn == "binop:Mul" and len(v.args) == 2:
+        for x, y in (v.args, v.args[::-1]):
+            if rel.const_int(y) == 8 and isinstance(x, App) and x.fn.startswith("std::mem::size_of"):
+                return True
+    return False
+
+
+def _facts(p):
+    from . import rel
+    f = getattr(p, "_facts", None)
+    if f is None:
+        f = rel.Facts(p)
+        p._facts = f
+    return f
+
+
+def _to_usize_arg(v):
+    """i for a value that is to_usize(i) unwrapped / matched as Some"""
+    from . import rel
+    v = rel.canon(v)
+    if isinstance(v, App) and v.fn == ".0" and isinstance(v.args[0], App) and v.args[0].fn == "as:Some":
+        x = v.args[0].args[0]
+        if isinstance(x, App) and x.fn in ("num::ToPrimitive::to_usize", "num::NumCast::from") and len(x.args) == 1:
+            return x.args[0]
+    return None
+
+
 def g_shift_range(fb, body, site):
+    """a << n / a >> n: a comparison n < bit-width holds on every path to the shift."""
     def pred(p, e):
+        from . import rel
         a, sh = e[2][0], e[2][1]
-        s_sh = show(sh)
-        m = re.match(r"\.0\(as:Some\((num::ToPrimitive::to_usize\(.*\))\)\)$", s_sh)
-        if not m:
-            return False, "shift amount is not the payload of to_usize(..): " + s_sh
-        tu = m.group(1)
-        pat = r"^binop:Lt\(std::option::Option::<T>::unwrap\(%s\), cast:IntToInt:usize\(binop:Add\(num::PrimInt::count_ones\(%s\), num::PrimInt::count_zeros\(%s\)\)\)\)$" % (
-            re.escape(tu), esc(a), esc(a))
-        if has_decision(p, pat, True):
-            return True, ""
-        return False, "no dominating `amount < bit-width(value)` test"
+        F = _facts(p)
+        n = rel.canon(sh)
+        for x, op, y in F.rel:
+            if op == "<" and x.key() == n.key() and _is_bit_width(y):
+                return True, ""
+        return False, "no `amount < bit-width` comparison of the shift amount %s holds on a path to the shift" % show(n)[:80]
     return _every_path(fb, body, site, pred)
 
 
 def g_unwrap_after_some(fb, body, site):
     def pred(p, e):
         x = e[2][0]
-        if has_decision(p, "^discr\\(%s\\)$" % esc(x), "Some") or has_decision(p, "^discr\\(%s\\)$" % esc(x), "Ok"):
+        if _facts(p).tag(x, ("Some", "Ok")):
             return True, ""
         return False, "no preceding Some/Ok test of the same value %s" % show(x)[:80]
     return _every_path(fb, body, site, pred)
 
 
+def _index_in_range(F, r, idx):
+    """0 <= idx < len(r) follows from the facts of the path"""
+    from . import rel
+    idx = rel.canon(idx)
+    lens = [s for a, op, b in F.rel for s in (a, b) if _is_len_of(s, r)]
+    # the index as usize against len as usize
+    for L in lens:
+        if isinstance(_unconv(L), App) and L.key() == _unconv(L).key() and F.lt(idx, L):
+            return True, ""
+    # the index as the integer it was converted from: 0 <= i < I::from(len)
+    i = _to_usize_arg(idx)
+    if i is not None:
+        up = any(F.lt(i, L) for L in lens)
+        lo = any((op in ("<=", "<") and _is_zero(a) and b.key() == rel.canon(i).key()) for a, op, b in F.rel)
+        if up and lo:
+            return True, ""
+        return False, "missing range test(s) for %s: i<len=%s, i>=0=%s" % (show(i)[:40], up, lo)
+    return False, "no comparison bounds the index %s by the length of %s" % (show(idx)[:60], show(r)[:40])
+
+
 def g_index_len3(fb, body, site):
+    """a[k]: k < len(a) holds on every path (constant index after a length test)."""
     def pred(p, e):
         r, idx = e[2][0], e[2][1]
-        if not (isinstance(idx, Const) and idx.bits is not None and idx.bits < 3):
-            return False, "index is not a constant < 3: " + show(idx)
-        pat = r"^binop:Ne\(smallvec::SmallVec::<A>::len\(%s\), 3_usize\)$" % esc(r)
-        if has_decision(p, pat, False):
-            return True, ""
-        return False, "no dominating len(%s) == 3 test" % show(r)[:60]
+        return _index_in_range(_facts(p), r, idx)
     return _every_path(fb, body, site, pred)
 
 
 def g_component_range(fb, body, site):
-    """a[i.to_usize().unwrap()] and the unwrap itself: 0 <= i < len(a), len(a) representable in I."""
+    """a[i.to_usize().unwrap()] and the unwrap itself: 0 <= i < len(a) in I (so len(a) is representable in I)."""
     def pred(p, e):
+        from . import rel
+        F = _facts(p)
         if site["what_path"].endswith("Index::index"):
-            r, idx = e[2][0], e[2][1]
-            m = re.match(r"std::option::Option::<T>::unwrap\(num::ToPrimitive::to_usize\((.*)\)\)$", show(idx))
-            if not m:
-                return False, "index is not to_usize(i).unwrap(): " + show(idx)[:80]
-            i = m.group(1)
-            rs = esc(r)
-        else:
-            m = re.match(r"num::ToPrimitive::to_usize\((.*)\)$", show(e[2][0]))
-            if not m:
-                return False, "not to_usize(i)"
-            i = m.group(1)
-            rs = r".*"
-        lenterm = r"num::NumCast::from\(smallvec::SmallVec::<A>::len\(%s\)\)" % rs
-        c1 = has_decision(p, r"^std::option::Option::<T>::is_none\(%s\)$" % lenterm, False)
-        c2 = has_decision(p, r"^std::cmp::PartialEq::eq\(std::option::Option::<T>::map\(%s, closure<\{closure#\d+\}>\), " % lenterm, False)
-        c3 = has_decision(p, r"^std::cmp::PartialOrd::lt\(%s, std::option::Option::<T>::unwrap\(num::NumCast::from\(0_i32\)\)\)$" % re.escape(i), False)
-        if c1 and c2 and c3:
+            return _index_in_range(F, e[2][0], e[2][1])
+        x = rel.canon(e[2][0])
+        if not (isinstance(x, App) and x.fn == "num::ToPrimitive::to_usize" and len(x.args) == 1):
+            return False, "not to_usize(i)"
+        i = x.args[0]
+        lo = any((op in ("<=", "<") and _is_zero(a) and b.key() == i.key()) for a, op, b in F.rel)
+        up = any(op == "<" and a.key() == i.key() and isinstance(_unconv(b), App) and _unconv(b).fn.endswith("::len") for a, op, b in F.rel)
+        if lo and up:
             return True, ""
-        return False, "missing range test(s): len representable=%s, i<len=%s, i>=0=%s" % (c1, c2, c3)
-    ok, why = _every_path(fb, body, site, pred)
-    if not ok:
-        return ok, why
-    # the closure passed to map must be `len <= i`
-    cl = [b for p_, b in fb.bodies.items() if p_.startswith(body["path"] + "::{closure#")]
-    good = False
-    for c in cl:
-        ps = paths_of(fb, c)
-        if len(ps) == 1 and ps[0].status == "return" and re.match(r"^std::cmp::PartialOrd::le\(p1, .*\)$", show(ps[0].result)):
-            good = True
-    return (True, why) if good else (False, "the mapped comparison is not `len <= i`")
+        return False, "missing range test(s): i<len=%s, i>=0=%s" % (up, lo)
+    return _every_path(fb, body, site, pred)
 
 
 def g_char_boundary_range(fb, body, site):
